@@ -254,6 +254,42 @@ theorem digestString_inj {a b : Digest} (h : digestString a = digestString b) : 
 
 /-! ### file nodes -/
 
+/-- The repaired `validateFileNodeParameters` accepts exactly the paths the old one accepted
+    that contain no line feed. -/
+theorem validateNodePath_ok_iff (p : Str) :
+    validateNodePath p = .ok () ↔ validateNodePathOld p = .ok () ∧ '\n' ∉ p := by
+  unfold validateNodePath
+  cases h : validateNodePathOld p with
+  | error e => simp
+  | ok u =>
+    cases u
+    by_cases hn : '\n' ∈ p
+    · simp [hn]
+    · simp [hn]
+
+/-- A path accepted by the repaired `NewFileNode` contains no line feed. -/
+theorem validateNodePath_no_newline {p : Str} (h : validateNodePath p = .ok ()) : '\n' ∉ p :=
+  ((validateNodePath_ok_iff p).mp h).2
+
+theorem validateNodePath_old_of_ok {p : Str} (h : validateNodePath p = .ok ()) :
+    validateNodePathOld p = .ok () :=
+  ((validateNodePath_ok_iff p).mp h).1
+
+/-- On a path the bucket-level checks accept, the only error the repaired validation can
+    report is the line feed. -/
+theorem validateNodePath_of_old {p : Str} (h : validateNodePathOld p = .ok ()) :
+    validateNodePath p = if '\n' ∈ p then .error .pathLineFeed else .ok () := by
+  unfold validateNodePath
+  rw [h]
+
+/-- The repaired `NewFileNode` is the old one restricted to line-feed-free paths. -/
+theorem newFileNode_eq_old {p : Str} (d : Digest) (h : '\n' ∉ p) :
+    newFileNode p d = newFileNodeOld p d := by
+  unfold newFileNode newFileNodeOld validateNodePath
+  cases validateNodePathOld p with
+  | error e => rfl
+  | ok u => cases u; simp [h]
+
 theorem newFileNode_ok {p : Str} (d : Digest) (h : validateNodePath p = .ok ()) :
     newFileNode p d = .ok ⟨p, d⟩ := by
   simp [newFileNode, h]
@@ -388,8 +424,9 @@ theorem parseLines_map (parse : Str → Except MErr FileNode) (m : List FileNode
     simp only [List.map_cons, parseLines, h n (by simp), ih (fun x hx => h x (by simp [hx]))]
 
 theorem parseManifest_manifestString (m : Manifest) (hc : Canonical m)
-    (hv : ∀ n ∈ m, validateNodePath n.path = .ok ()) (hnl : ∀ n ∈ m, '\n' ∉ n.path) :
+    (hv : ∀ n ∈ m, validateNodePath n.path = .ok ()) :
     parseManifest (manifestString m) = .ok m := by
+  have hnl : ∀ n ∈ m, '\n' ∉ n.path := fun n hn => validateNodePath_no_newline (hv n hn)
   cases hm : m with
   | nil => simp [parseManifest, parseManifestWith, manifestString, newManifest, hasDupPath, sortBy]
   | cons n ns =>
@@ -411,10 +448,9 @@ theorem parseManifest_manifestString (m : Manifest) (hc : Canonical m)
 
 theorem manifestString_inj {m₁ m₂ : Manifest} (h1 : Canonical m₁) (h2 : Canonical m₂)
     (hv1 : ∀ n ∈ m₁, validateNodePath n.path = .ok ()) (hv2 : ∀ n ∈ m₂, validateNodePath n.path = .ok ())
-    (hn1 : ∀ n ∈ m₁, '\n' ∉ n.path) (hn2 : ∀ n ∈ m₂, '\n' ∉ n.path)
     (h : manifestString m₁ = manifestString m₂) : m₁ = m₂ := by
-  have := parseManifest_manifestString m₁ h1 hv1 hn1
-  rw [h, parseManifest_manifestString m₂ h2 hv2 hn2] at this
+  have := parseManifest_manifestString m₁ h1 hv1
+  rw [h, parseManifest_manifestString m₂ h2 hv2] at this
   exact (Except.ok.inj this).symm
 
 end BufModel.Manifest
